@@ -189,13 +189,21 @@ class C05:
         name = pool[rc.randrange(len(pool))]
         cfg = tiny_cfg(name, rc)
         env = E.make_env(cfg)
-        row = E.gen_rows(env, cfg, 1, st.torch_seed("instances"))[0]
+        two = E.gen_rows(env, cfg, 2, st.torch_seed("instances"))
+        row = two[0]
         source = "generator"
         if name in BOUNDARY_ENVS and rc.random() < 0.5:
             b = make_boundary(name, row, rc)
             if b is not None:
                 row, source = b, "boundary"
-        return {"cfg": cfg, "instance": E.enc_row(row), "source": source, "limit": LIMIT[tier],
+        elif rc.random() < 0.5:
+            hrows, tag = E.hand_format(name, [row], rc)
+            if tag != "generator":
+                row, source = hrows[0], tag
+        # a stranger (another instance, other agent count / variant / demands) stepped at batch row 0 next to
+        # the solutions under test: what is offered to an instance must not depend on its batch-mates
+        stranger = E.enc_row(two[1]) if rc.random() < 0.5 else None
+        return {"cfg": cfg, "instance": E.enc_row(row), "stranger": stranger, "source": source, "limit": LIMIT[tier],
                 "sample_seed": rc.randrange(1 << 30)}
 
     @staticmethod
@@ -247,13 +255,21 @@ def _execute(run, name, cfg, row, p):
 
 def _drive_chunk(run, env, cfg, row, ref0, chunk, is_best, objs):
     name = cfg["env"]
+    strg = E.dec_row(run.plan["stranger"]) if run.plan.get("stranger") else None
+    off = 1 if strg is not None else 0
+    if strg is not None:
+        # row 0 = stranger driven along its lowest admitted action; rows 1.. = the solutions under test
+        chunk = [None] + list(chunk)
+        is_best = [False] + list(is_best)
+        objs = ([None] + list(objs)) if objs is not None else None
+        run.fault("stranger_at_row0")
     B = len(chunk)
     with run.guard(name, "reset", B=B):
-        td = E.reset(env, cfg, [row] * B)
+        td = E.reset(env, cfg, ([strg] if strg is not None else []) + [row] * (B - off))
     refs = [ref0.clone() for _ in range(B)]
     hist = [[] for _ in range(B)]
     residue_rows = set()
-    T = max(len(s) for s in chunk)
+    T = max(len(s) for s in chunk if s is not None)
     t = 0
     while True:
         done = E.done_vec(td)
@@ -262,6 +278,13 @@ def _drive_chunk(run, env, cfg, row, ref0, chunk, is_best, objs):
         mask = td["action_mask"]
         acts = []
         for r in range(B):
+            if chunk[r] is None:  # the stranger
+                opts = D.admitted(mask[r])
+                if not opts:
+                    return
+                acts.append(opts[0])
+                hist[r].append(opts[0])
+                continue
             sol = chunk[r]
             if t < len(sol):
                 if bool(done[r]):
@@ -305,9 +328,11 @@ def _drive_chunk(run, env, cfg, row, ref0, chunk, is_best, objs):
             td = E.step(env, td, torch.tensor(acts))
         run.tick()
         t += 1
-        if t > T + 6:
+        if t > T + 6 + (D.step_bound_generic(cfg, td) if strg is not None else 0):
+            if strg is not None:
+                return  # the stranger did not finish under the lowest-action policy: C02's business
             raise HarnessError("chunk did not finish")
-    run.probe("solutions_driven", B)
+    run.probe("solutions_driven", B - off)
     if objs is not None and any(is_best):
         actions = torch.tensor(hist, dtype=torch.long)
         with run.guard(name, "get_reward"):
